@@ -218,6 +218,27 @@ OK_VARIANTS = ("@Some", "@Ok", "@Continue")
 ERR_VARIANTS = ("@None", "@Err", "@Break")
 
 
+def join_returns(rets):
+    """Join of the return summaries of several analyses of one function (same rule as for several return blocks)."""
+    ret = None
+    for cur in rets:
+        if ret is None:
+            ret = dict(cur)
+            continue
+        a_, b_ = {(0, k): v for k, v in ret.items()}, {(0, k): v for k, v in cur.items()}
+        new = {}
+        for k, v in ret.items():
+            if k in cur:
+                new[k] = join(v, cur[k]) if (v is not None and cur[k] is not None) else None
+            elif payload_vacuous((0, k), b_):
+                new[k] = v
+        for k, v in cur.items():
+            if k not in ret and payload_vacuous((0, k), a_):
+                new[k] = v
+        ret = new
+    return ret or {}
+
+
 def payload_vacuous(k, other):
     """Facts about the payload of variant V of a value are vacuously true in a state where that value
     is known to be the other variant."""
@@ -286,6 +307,7 @@ class Analyzer:
         self.call_ok_obs = {}  # (fn, bb of a call to a local fn) -> join over contexts of the `#ok` fact of its result (None = unknown)
         self.lossy_obs = {}  # (fn, kind, target type) -> (exact interval, target range): narrowing casts / saturating / wrapping ops that may lose value
         self.agg_obs = {}
+        self.callarg_obs = {}  # (caller, block) -> [interval of each integer argument] (joined over contexts; None = unknown)
         self.len_obs = {}  # (adt, field) -> join of observed lengths at every struct literal (None = unknown somewhere)
         self.field_lens = {}  # established field length sets (see establish_field_lens)
         self._recording = False
@@ -330,12 +352,26 @@ class Analyzer:
                         vals.append((cv, cv))
                     else:
                         # value produced by a call to a local const-evaluable fn with const args
-                        vals.append(self._try_const_operand(F.fns[caller], a))
+                        v = self._try_const_operand(F.fns[caller], a)
+                        if v is None and ty_range({"s": (core.op_place(a) or {}).get("ty", "")}) is not None:
+                            # an integer chosen on several paths (e.g. by a match): observed when the caller is analysed
+                            v = ("observe-sites", None, [(caller, b, len(vals))])
+                        vals.append(v)
                 if res is None:
                     res = vals
                 else:
-                    res = [join(x, y) if (x is not None and y is not None) else None for x, y in zip(res, vals)]
+                    res = [jn(x, y) for x, y in zip(res, vals)]
             return res
+
+        def jn(x, y):
+            if x is None or y is None:
+                return None
+            if x[0] == "observe-sites" or y[0] == "observe-sites":
+                xi, xs = (x[1], x[2]) if x[0] == "observe-sites" else (x, [])
+                yi, ys = (y[1], y[2]) if y[0] == "observe-sites" else (y, [])
+                iv = xi if yi is None else (yi if xi is None else join(xi, yi))
+                return ("observe-sites", iv, xs + ys)
+            return join(x, y)
 
         for f in F.fns.values():
             for b, i, s in f.iter_stmts():
@@ -391,7 +427,7 @@ class Analyzer:
         pending = {}
         for key, ws in writes.items():
             if ws and all(w is not None for w in ws):
-                if any(w[0] == "observe" for w in ws):
+                if any(w[0] in ("observe", "observe-sites") for w in ws):
                     pending[key] = ws
                     continue
                 iv = ws[0]
@@ -414,6 +450,19 @@ class Analyzer:
                         okk = False
                         break
                     iv = o if iv is None else join(iv, o)
+                elif w[0] == "observe-sites":
+                    if w[1] is not None:
+                        iv = w[1] if iv is None else join(iv, w[1])
+                    for caller, cb, idx in w[2]:
+                        g = F.fns[caller]
+                        self.call_local(caller, [None] * g.arg_count)
+                        o = (self.callarg_obs.get((caller, cb)) or [None] * (idx + 1))[idx]
+                        if o is None:
+                            okk = False
+                            break
+                        iv = o if iv is None else join(iv, o)
+                    if not okk:
+                        break
                 else:
                     iv = w if iv is None else join(iv, w)
             if okk and iv is not None:
@@ -550,11 +599,39 @@ class Analyzer:
             if v is not None:
                 self.field_lens[(adt, fld)] = v
 
+    def _self_enum_variants(self, f):
+        """Discriminant values of the enum behind `&self` when the function reads `discriminant(*self)` of a crate-local enum
+        without fields (at most 16 variants); else None.  Cached on the function."""
+        c = getattr(f, "_self_enum_vals", 0)
+        if c != 0:
+            return c
+        res = None
+        if f.arg_count >= 1 and f.locals[1]["ty"].get("k") == "ref":
+            inner = f.locals[1]["ty"]["ty"]
+            adt = self.F.adts.get(inner.get("path")) if inner.get("k") == "adt" else None
+            if adt is not None and str(adt.get("kind")).lower() == "enum" and all(not v["fields"] for v in adt["variants"]) and 2 <= len(adt["variants"]) <= 16:
+                for b, i, st in f.iter_stmts():
+                    if st["k"] == "assign" and st["rv"]["k"] == "discr" and st["rv"]["place"]["local"] == 1 and st["rv"].get("adt") == inner["path"]:
+                        res = sorted(v for v, n in st["rv"].get("variants", []))
+        f._self_enum_vals = res
+        return res
+
     # ------------------------------------------------------------------ calls
     def call_local(self, path, args, sub=None):
         """Analyse crate-local function `path` with integer argument intervals `args` (list aligned
         with parameters; None = unknown). Returns {subpath: interval} of the return value."""
         f = self.F.fns[path]
+        # a method that matches on a fieldless `self` enum is analysed once per variant and the results are joined: the values
+        # an arm selects (e.g. a Winternitz parameter of 1, 2, 4 or 8) stay exact instead of becoming the interval hull
+        if not (sub and (1, ("#discr",)) in sub):
+            vs = self._self_enum_variants(f)
+            if vs:
+                rets = []
+                for v in vs:
+                    s2 = dict(sub or {})
+                    s2[(1, ("#discr",))] = (v, v)
+                    rets.append(self.call_local(path, args, s2))
+                return join_returns(rets)
         ctx = tuple(args[i] if i < len(args) else None for i in range(f.arg_count))
         if sub:
             ctx = ctx + (tuple(sorted(sub.items())),)
@@ -777,16 +854,24 @@ class Analyzer:
         ty = {"s": p["ty"]}
         rng = ty_range(ty)
         # element of a constant integer array
-        if len(p["proj"]) == 1 and p["proj"][0]["k"] == "index" and p["local"] in st.arr:
-            arr = st.arr[p["local"]]
-            iv = st.v.get((p["proj"][0]["local"], ()))
-            if iv is not None and arr:
-                lo, hi = max(iv[0], 0), min(iv[1], len(arr) - 1)
-                if lo <= hi:
-                    sl = arr[lo : hi + 1]
-                    return (min(sl), max(sl))
-            if arr:
-                return (min(arr), max(arr))
+        if p["proj"] and all(e["k"] == "index" for e in p["proj"]) and p["local"] in st.arr:
+            cands = [st.arr[p["local"]]]
+            for e in p["proj"]:
+                iv = st.v.get((e["local"], ()))
+                nxt = []
+                for arr in cands:
+                    if not isinstance(arr, tuple) or not arr:
+                        nxt = None
+                        break
+                    lo, hi = (max(iv[0], 0), min(iv[1], len(arr) - 1)) if iv is not None else (0, len(arr) - 1)
+                    if lo > hi:
+                        lo, hi = 0, len(arr) - 1
+                    nxt.extend(arr[lo : hi + 1])
+                cands = nxt
+                if cands is None:
+                    break
+            if cands and all(isinstance(x, int) for x in cands):
+                return (min(cands), max(cands))
         # field value sets (any access path ending in a known constructor-only field)
         for e in reversed(p["proj"]):
             if e["k"] == "field" and "adt" in e:
@@ -1093,6 +1178,11 @@ class Analyzer:
             p = rv["place"]
             sk = place_key(p, f.locals)
             adt = rv.get("adt")
+            if sk is not None and adt not in (flow.RESULT, flow.OPTION, flow.CONTROL_FLOW):
+                # a fieldless / general enum whose variant the caller fixed (table evaluation per variant)
+                dv = st.v.get((sk[0], sk[1] + ("#discr",)))
+                if dv is not None:
+                    self.set_key(st, dkey, dv)
             if sk is not None and adt in (flow.RESULT, flow.OPTION, flow.CONTROL_FLOW):
                 okv = st.v.get((sk[0], sk[1] + ("#ok",)))
                 if okv is not None and okv[0] == okv[1]:
@@ -1372,6 +1462,9 @@ class Analyzer:
         dty = {"s": t["dest"]["ty"]}
         rng = ty_range(dty)
         argiv = [self.op_iv(f, st, a) for a in t["args"]]
+        if record:
+            prev = self.callarg_obs.get((f.path, b))
+            self.callarg_obs[(f.path, b)] = list(argiv) if prev is None else [join(x, y) if (x is not None and y is not None) else None for x, y in zip(prev, argiv)]
         ret = None
         c = core.callee_of(t)
         tps = self.F.call_targets(f, t) if c else []
@@ -1520,15 +1613,23 @@ def const_int_array(o):
     if o.get("k") != "const" or "bytes" not in o:
         return None
     ty = o["ty"]
-    if ty.get("k") != "array" or not ty.get("len") or ty["elem"].get("k") != "int":
+
+    def dec(ty, raw):
+        if ty.get("k") != "array" or not ty.get("len"):
+            return None
+        n = ty["len"]
+        w = len(raw) // n
+        if w * n != len(raw) or w == 0:
+            return None
+        el = ty["elem"]
+        if el.get("k") == "int":
+            signed = el["s"].startswith("i")
+            return tuple(int.from_bytes(bytes(raw[i * w : (i + 1) * w]), "little", signed=signed) for i in range(n))
+        if el.get("k") == "array":   # rows of a constant table
+            rows = tuple(dec(el, raw[i * w : (i + 1) * w]) for i in range(n))
+            return None if any(r is None for r in rows) else rows
         return None
-    n = ty["len"]
-    raw = o["bytes"]
-    w = len(raw) // n
-    if w * n != len(raw) or w == 0:
-        return None
-    signed = ty["elem"]["s"].startswith("i")
-    return tuple(int.from_bytes(bytes(raw[i * w : (i + 1) * w]), "little", signed=signed) for i in range(n))
+    return dec(ty, o["bytes"])
 
 
 CMP = ("Lt", "Le", "Gt", "Ge", "Eq", "Ne")
